@@ -40,6 +40,8 @@ type Case struct {
 	ExitCode int      `json:"exit_code,omitempty"`
 	Stdout   string   `json:"stdout,omitempty"`
 	GoDoc    string   `json:"go_doc,omitempty"` // a Go-typed document as a gval term
+	// calls made (and ignored) in this process just before the observed one
+	Prelude []string `json:"prelude,omitempty"`
 }
 
 type Violation struct {
@@ -49,6 +51,7 @@ type Violation struct {
 	Doc      interface{} `json:"doc,omitempty"`
 	What     string      `json:"what"`
 	Detail   string      `json:"detail,omitempty"`
+	Prelude  []string    `json:"prelude,omitempty"`
 }
 
 type Run struct {
@@ -66,7 +69,7 @@ type Run struct {
 func (r *Run) count(key string) { r.dist[key]++ }
 
 func (r *Run) violate(family, expr string, doc interface{}, what, detail string) {
-	r.violations = append(r.violations, Violation{r.prop, family, expr, doc, what, detail})
+	r.violations = append(r.violations, Violation{r.prop, family, expr, doc, what, detail, peekPrelude()})
 }
 
 // mark writes the input about to be executed, so that a crash of this process
@@ -109,6 +112,7 @@ func (r *Run) addSearch(family, expr string, doc interface{}, mode string) *Case
 	o := observeSearch(expr, doc)
 	r.generic(family, expr, before, doc, o)
 	c := Case{ID: len(r.cases), Family: family, Kind: "search", Expr: expr, Doc: before, Mode: mode, Go: o.String(), goObs: o}
+	c.Prelude = takePrelude()
 	r.cases = append(r.cases, c)
 	r.count(docKindTag(o))
 	return &r.cases[len(r.cases)-1]
@@ -126,6 +130,7 @@ func (r *Run) addTree(family string, t *Ex, text string, doc interface{}, mode s
 	o := observeSearch(text, doc)
 	r.generic(family, text, before, doc, o)
 	c := Case{ID: len(r.cases), Family: family, Kind: "tree", Expr: text, Doc: before, Mode: mode, Tree: t, TreeS: t.coq(), Go: o.String(), goObs: o, goAst: a}
+	c.Prelude = takePrelude()
 	r.cases = append(r.cases, c)
 	r.count(docKindTag(o))
 	return &r.cases[len(r.cases)-1]
@@ -139,6 +144,7 @@ func (r *Run) addAst(family, expr string, cmpOff bool) *Case {
 	r.mark(family, expr, nil)
 	a := observeCompile(expr)
 	c := Case{ID: len(r.cases), Family: family, Kind: "ast", Expr: expr, CmpOff: cmpOff, Go: a.Kind + " " + a.Msg, goAst: a}
+	c.Prelude = takePrelude()
 	r.cases = append(r.cases, c)
 	r.count("compile:" + a.Kind)
 	return &r.cases[len(r.cases)-1]
@@ -148,6 +154,7 @@ func (r *Run) addAst(family, expr string, cmpOff bool) *Case {
 func (r *Run) addCli(family string, args []string, viaFile bool, input *string, code int, stdout string) {
 	c := Case{ID: len(r.cases), Family: family, Kind: "cli", Expr: strings.Join(args, " "), Args: args, ViaFile: viaFile,
 		Input: input, ExitCode: code, Stdout: stdout, Go: fmt.Sprintf("exit=%d stdout=%q", code, stdout)}
+	c.Prelude = takePrelude()
 	r.cases = append(r.cases, c)
 	r.count(fmt.Sprintf("cli-case:exit%d", code))
 }
@@ -156,6 +163,7 @@ func (r *Run) addTok(family, expr string) *Case {
 	r.mark(family, expr, nil)
 	t := observeTokens(expr)
 	c := Case{ID: len(r.cases), Family: family, Kind: "tok", Expr: expr, Go: t.Kind + " " + t.Msg, goTok: t}
+	c.Prelude = takePrelude()
 	r.cases = append(r.cases, c)
 	r.count("lex:" + t.Kind)
 	return &r.cases[len(r.cases)-1]
@@ -300,6 +308,7 @@ func main() {
 	os.MkdirAll(*out, 0o755)
 	start := time.Now()
 	r := &Run{prop: *prop, tier: *tier, seed: *seed, rng: rand.New(rand.NewSource(*seed)), dist: map[string]int{}}
+	interRng = rand.New(rand.NewSource(*seed*7919 + 13))
 	pf, err := os.Create(filepath.Join(*out, "progress.json"))
 	if err == nil {
 		r.progress = pf
